@@ -9,8 +9,8 @@ Core Lean only (no imports).  Three parts, each mirroring the Python operation b
   `named_steps` (a `dict`: the last binding of a name wins).  A nested pipeline is a step whose two
   methods are the pipeline's own `transform` and `evaluate` (`Pipe.asStep`).
 * **unique names** — `unique_names`: the loop over the reversed names with the table of remaining
-  counts, generic in the suffixing function; `uniqueNames` is the instance at
-  `n ++ "_" ++ toString c` (what `f"{name}_{count}"` builds).
+  counts and the set of used names, generic in the suffixing function; `uniqueNames` is the instance at
+  `n ++ "_" ++ toString c` (what `f"{name}_{count}"` builds); `uniqueNames_v0` is the loop before the fix.
 * **parameters** — `get_parameters`, `copy(**kwargs)` and construction, over association lists of
   parameter names to values; a constructor is a list of fields (default, coercion) plus a
   cross-field check.  The coercions are the ones the real constructors apply (`float()`, `bool()`,
@@ -156,7 +156,11 @@ def Pipe.getStr (p : Pipe δ ρ) (name : String) : Except Err (Step δ ρ) :=
 
 end pipe
 
-/-! ## `unique_names` -/
+/-! ## `unique_names`
+
+The code as it is now (after `fix: unique_names keeps suffixing until the generated name is free`) is
+`unamesLoop` / `uniqueNamesG` / `uniqueNames`; the loop before the fix is kept as `unamesLoop_v0` /
+`uniqueNamesG_v0` / `uniqueNames_v0` (it gives `["foo","foo","foo_1"] ↦ ["foo_1","foo_2","foo_1"]`). -/
 section unames
 variable {ν : Type} [DecidableEq ν]
 
@@ -165,28 +169,51 @@ variable {ν : Type} [DecidableEq ν]
 def nameCount (names : List ν) : List (ν × Nat) :=
   (names.map fun n => (n, names.count n)).filter fun kv => decide (1 < kv.2)
 
+/-- `used = {k for k, v in counter.items() if v == 1}` (a set: only membership is read) -/
+def usedInit (names : List ν) : List ν := names.filter fun n => names.count n == 1
+
+/-- `while name in used: name = f"{name}_{count}"`.  `fuel` bounds the loop for the termination checker:
+`used.length + 1` rounds always suffice (every round makes a longer, hence different, name). -/
+def freshen (sfx : ν → Nat → ν) (used : List ν) (c : Nat) : Nat → ν → ν
+  | 0, x => x
+  | fuel + 1, x => if x ∈ used then freshen sfx used c fuel (sfx x c) else x
+
 /-- the loop of `unique_names` over the **reversed** names.  `count = name_count.get(name, 0)`; when it
-is non-zero the table entry becomes `count - 1` (a new first binding shadows the old one) and the name
-becomes `sfx name count`.  `acc` collects `named_elements` (appended, then reversed at the end: consing
-does both). -/
-def unamesLoop (sfx : ν → Nat → ν) : List ν → List (ν × Nat) → List ν → List ν
-  | [], _, acc => acc
-  | n :: rest, tbl, acc =>
+is non-zero the table entry becomes `count - 1` (a new first binding shadows the old one), the name
+becomes `sfx name count`, is suffixed again while it is already used, and is added to `used`.  `acc`
+collects `named_elements` (appended, then reversed at the end: consing does both). -/
+def unamesLoop (sfx : ν → Nat → ν) : List ν → List (ν × Nat) → List ν → List ν → List ν
+  | [], _, _, acc => acc
+  | n :: rest, tbl, used, acc =>
     match tbl.lookup n with
-    | some (c + 1) => unamesLoop sfx rest ((n, c) :: tbl) (sfx n (c + 1) :: acc)
-    | _ => unamesLoop sfx rest tbl (n :: acc)
+    | some (c + 1) =>
+      let x := freshen sfx used (c + 1) (used.length + 1) (sfx n (c + 1))
+      unamesLoop sfx rest ((n, c) :: tbl) (x :: used) (x :: acc)
+    | _ => unamesLoop sfx rest tbl used (n :: acc)
 
 /-- `unique_names` (names only), generic in the suffixing function -/
 def uniqueNamesG (sfx : ν → Nat → ν) (names : List ν) : List ν :=
-  unamesLoop sfx names.reverse (nameCount names) []
+  unamesLoop sfx names.reverse (nameCount names) (usedInit names) []
 
-/-- closed form: a name occurring once is kept; the `k`-th occurrence (in the original order, from 1) of a
-repeated name `n` becomes `sfx n k` -/
+/-- the loop before the fix: no `used`, the generated name is taken as it is -/
+def unamesLoop_v0 (sfx : ν → Nat → ν) : List ν → List (ν × Nat) → List ν → List ν
+  | [], _, acc => acc
+  | n :: rest, tbl, acc =>
+    match tbl.lookup n with
+    | some (c + 1) => unamesLoop_v0 sfx rest ((n, c) :: tbl) (sfx n (c + 1) :: acc)
+    | _ => unamesLoop_v0 sfx rest tbl (n :: acc)
+
+def uniqueNamesG_v0 (sfx : ν → Nat → ν) (names : List ν) : List ν :=
+  unamesLoop_v0 sfx names.reverse (nameCount names) []
+
+/-- closed form (of the loop before the fix, and of the present one whenever nothing clashes): a name
+occurring once is kept; the `k`-th occurrence (in the original order, from 1) of a repeated name `n`
+becomes `sfx n k` -/
 def uniqueNamesSpecG (sfx : ν → Nat → ν) (names : List ν) : List ν :=
   names.mapIdx fun i n => if 1 < names.count n then sfx n ((names.take (i + 1)).count n) else n
 
-/-- the hypothesis under which the generated names are pairwise different: no name that occurs exactly
-once is one of the names `sfx n 1 … sfx n (count n)` generated for a repeated name `n` -/
+/-- no clash: no name that occurs exactly once is one of the names `sfx n 1 … sfx n (count n)` generated
+for a repeated name `n` (then the `while` loop never runs) -/
 def noSuffixClash (sfx : ν → Nat → ν) (names : List ν) : Bool :=
   names.all fun n =>
     decide (names.count n ≤ 1) ||
@@ -199,6 +226,9 @@ def sfxStr (n : String) (c : Nat) : String := n ++ "_" ++ toString c
 
 /-- `unique_names` on strings -/
 def uniqueNames (names : List String) : List String := uniqueNamesG sfxStr names
+
+/-- `unique_names` before the fix -/
+def uniqueNames_v0 (names : List String) : List String := uniqueNamesG_v0 sfxStr names
 
 def uniqueNamesSpec (names : List String) : List String := uniqueNamesSpecG sfxStr names
 
@@ -213,35 +243,6 @@ def mkpipe {δ ρ : Type} (steps : List (String × Step δ ρ)) : Except Err (Pi
   match uniqueNamed (steps.map (·.1)) (steps.map (·.2)) with
   | .ok named => Pipe.new named
   | .error e => .error e
-
-/-! ### candidate repair of K4 (`/tmp/fix-c16-unames.patch`): keep suffixing until the name is free
-
-`used` starts as the names that occur once (they are emitted verbatim) and grows by every generated name;
-a candidate that is already used gets the same suffix again.  `fuel` bounds the `while` loop
-(`used.length + 1` iterations always suffice: every iteration makes a longer string). -/
-section unamesFix
-variable {ν : Type} [DecidableEq ν]
-
-/-- `while new in used: new = sfx new count` -/
-def freshen (sfx : ν → Nat → ν) (used : List ν) (c : Nat) : Nat → ν → ν
-  | 0, x => x
-  | fuel + 1, x => if x ∈ used then freshen sfx used c fuel (sfx x c) else x
-
-def unamesLoopFix (sfx : ν → Nat → ν) : List ν → List (ν × Nat) → List ν → List ν → List ν
-  | [], _, _, acc => acc
-  | n :: rest, tbl, used, acc =>
-    match tbl.lookup n with
-    | some (c + 1) =>
-      let x := freshen sfx used (c + 1) (used.length + 1) (sfx n (c + 1))
-      unamesLoopFix sfx rest ((n, c) :: tbl) (x :: used) (x :: acc)
-    | _ => unamesLoopFix sfx rest tbl used (n :: acc)
-
-def uniqueNamesFixG (sfx : ν → Nat → ν) (names : List ν) : List ν :=
-  unamesLoopFix sfx names.reverse (nameCount names) (names.filter fun n => names.count n == 1) []
-
-end unamesFix
-
-def uniqueNamesFix (names : List String) : List String := uniqueNamesFixG sfxStr names
 
 /-! ## Parameters: `get_parameters`, `copy`, constructors -/
 
